@@ -677,7 +677,8 @@ func a6Discharged(p *core.Program, f *core.Func, g *cfgx.G, def cfgx.Point, ev *
 	}
 	for _, t := range tests {
 		start := cfgx.Point{B: t.br.B.Succs[t.nonNil], I: 0}
-		nnCut, copies := nonNilInfo(g, info, f.Root().Body, ev, start)
+		ef := newErrFlow(g, info, ev, start, isClassifierEdge)
+		nnCut := ef.cut
 		tp, bad := g.Reach(start, true, cfgx.Query{
 			Target: func(q cfgx.Point) bool {
 				if !g.IsExit(q) {
@@ -693,18 +694,41 @@ func a6Discharged(p *core.Program, f *core.Func, g *cfgx.G, def cfgx.Point, ev *
 					return !isParamOf(f, ev)
 				}
 				last := ret.Results[len(ret.Results)-1]
-				for cv := range copies {
-					if core.Mentions(info, last, cv) {
-						return false
+				derived := false
+				ast.Inspect(last, func(m ast.Node) bool {
+					if id, ok := m.(*ast.Ident); ok {
+						// ev itself is intact on every explored path (redefinitions are cut); other variables must hold a copy
+						if cv, ok := info.ObjectOf(id).(*types.Var); ok && isErrorType(cv.Type()) && (cv == ev || ef.holds(cv, q, 0)) {
+							derived = true
+						}
 					}
-				}
-				return true
+					return !derived
+				})
+				return !derived
 			},
 			Cut: func(q cfgx.Point) bool {
-				// a redefinition of ev ends the derivation: what is returned afterwards is another error
+				// a redefinition of ev ends the derivation: what happens afterwards is that call's own
+				// obligation (and the leak of a re-assigned nil is looked for by the second walk below)
+				return q.Node() != nil && g.Assigns(q.Node(), ev)
+			},
+			CutEdge: func(b *cfgBlock, k int) bool {
+				if isClassifierEdge(b, k) || nnCut(b, k) {
+					return true
+				}
+				// ev is intact on every path explored (redefinitions are cut): an edge asserting ev == nil is infeasible
+				if len(b.Succs) == 2 && len(b.Nodes) > 0 {
+					if e, ok := b.Nodes[len(b.Nodes)-1].(ast.Expr); ok {
+						for _, a := range cfgx.Atoms(e, k == 0) {
+							if bb, isBin := ast.Unparen(a.Cond).(*ast.BinaryExpr); isBin && (bb.Op == token.EQL || bb.Op == token.NEQ) && core.VarOf(info, bb.X) == ev {
+								if id, isID := ast.Unparen(bb.Y).(*ast.Ident); isID && id.Name == "nil" && (bb.Op == token.EQL) == a.Val {
+									return true
+								}
+							}
+						}
+					}
+				}
 				return false
 			},
-			CutEdge: func(b *cfgBlock, k int) bool { return isClassifierEdge(b, k) || nnCut(b, k) },
 		})
 		if bad {
 			where := "the end of the function"
@@ -918,92 +942,122 @@ func isNamedResult(f *core.Func, v *types.Var) bool {
 	return false
 }
 
-// nonNilCut prunes, on a walk that starts where `seed` is known to be non-nil, the branch edges
-// that contradict it - for seed itself and for variables that only ever receive a copy of it
-// (`firstErr = err; break` ... `if firstErr != nil { return firstErr }`). A copy target qualifies
-// only if every other definition of it in the body is its declaration or a nil/zero initialisation.
-func nonNilCut(g *cfgx.G, info *types.Info, body ast.Node, seed *types.Var, start cfgx.Point) func(b *cfgBlock, k int) bool {
-	cut, _ := nonNilInfo(g, info, body, seed, start)
-	return cut
+// errFlow answers, for a walk that starts at `start` where `seed` (an error variable) is known to
+// be non-nil, whether a variable still holds that error (or a copy of it) at a later point:
+//
+//   - the seed holds it as long as no definition of the seed that is reachable from the start
+//     reaches the point;
+//   - another variable holds it at a point if every path from the start to the point passes a
+//     definition of it, and every such definition that reaches the point is a plain copy
+//     `w = v` / `a, w = x, v` of a variable that holds the error there
+//     (`firstErr = err; break` ... `if firstErr != nil { return firstErr }`, or the
+//     `res, err = nil, innerErr; break L` of an inlined helper's error return).
+type errFlow struct {
+	g     *cfgx.G
+	info  *types.Info
+	seed  *types.Var
+	start cfgx.Point
+	reach map[cfgx.Point]bool
+	baseCut func(b *cfgBlock, k int) bool
 }
 
-// nonNilInfo: the pruning function and the set of variables that hold (a copy of) the seed.
-func nonNilInfo(g *cfgx.G, info *types.Info, body ast.Node, seed *types.Var, start cfgx.Point) (func(b *cfgBlock, k int) bool, map[*types.Var]bool) {
-	nonNil := map[*types.Var]bool{seed: true}
-	for changed := true; changed; {
-		changed = false
-		g.Reach(start, true, cfgx.Query{Target: func(q cfgx.Point) bool {
-			as, ok := q.Node().(*ast.AssignStmt)
-			if !ok || len(as.Lhs) != len(as.Rhs) {
-				return false
-			}
-			for i := range as.Lhs {
-				w, v := core.VarOf(info, as.Lhs[i]), core.VarOf(info, as.Rhs[i])
-				if w == nil || v == nil || !nonNil[v] || nonNil[w] {
-					continue
-				}
-				clean := true
-				for _, d := range core.DefsOf(info, body, w) {
-					if d.Stmt == ast.Node(as) {
-						continue
-					}
-					if d.Rhs == nil {
-						continue // var w error
-					}
-					if id, isID := ast.Unparen(d.Rhs).(*ast.Ident); isID && id.Name == "nil" {
-						continue
-					}
-					if cv := core.VarOf(info, d.Rhs); cv != nil && nonNil[cv] {
-						continue
-					}
-					clean = false
-				}
-				if clean {
-					nonNil[w] = true
-					changed = true
-				}
-			}
-			return false
-		}})
-	}
-	d0, _ := reachingDefs(g, seed, start)
-	return func(b *cfgBlock, k int) bool {
-		if len(b.Succs) != 2 || len(b.Nodes) == 0 {
-			return false
-		}
-		e, ok := b.Nodes[len(b.Nodes)-1].(ast.Expr)
-		if !ok {
-			return false
-		}
-		for _, a := range cfgx.Atoms(e, k == 0) {
-			bb, isBin := ast.Unparen(a.Cond).(*ast.BinaryExpr)
-			if !isBin || (bb.Op != token.EQL && bb.Op != token.NEQ) {
-				continue
-			}
-			id, isID := ast.Unparen(bb.Y).(*ast.Ident)
-			if !isID || id.Name != "nil" {
-				continue
-			}
-			v := core.VarOf(info, bb.X)
-			if v == nil || !nonNil[v] {
-				continue
-			}
-			// this edge asserts v == nil ?
-			isNilHere := (bb.Op == token.EQL) == a.Val
-			if isNilHere {
-				if v == seed {
-					// the seed may have been re-assigned since the start (err = next()): prune only when the
-					// definitions reaching this test are the ones that reached the start
-					db, _ := reachingDefs(g, seed, cfgx.Point{B: b, I: len(b.Nodes) - 1})
-					if !samePointSet(d0, db) {
-						continue
-					}
-				}
+func newErrFlow(g *cfgx.G, info *types.Info, seed *types.Var, start cfgx.Point, baseCut ...func(b *cfgBlock, k int) bool) *errFlow {
+	ef := &errFlow{g: g, info: info, seed: seed, start: start, reach: map[cfgx.Point]bool{}}
+	// edges the surrounding walk does not take anyway (reviewed classifiers, swallowed sentinels)
+	ef.baseCut = func(b *cfgBlock, k int) bool {
+		for _, c := range baseCut {
+			if c != nil && c(b, k) {
 				return true
 			}
 		}
 		return false
-	}, nonNil
+	}
+	g.Reach(start, true, cfgx.Query{Target: func(q cfgx.Point) bool {
+		if q.Node() != nil {
+			ef.reach[q] = true
+		}
+		return false
+	}, CutEdge: ef.baseCut})
+	return ef
+}
+
+// holds: v holds the seed's error at point `at` (for walks coming from the start).
+func (ef *errFlow) holds(v *types.Var, at cfgx.Point, depth int) bool {
+	if v == nil || depth > 4 {
+		return false
+	}
+	defs, _ := reachingDefs(ef.g, v, at)
+	var fromStart []cfgx.Point
+	for _, d := range defs {
+		if ef.reach[d] {
+			fromStart = append(fromStart, d)
+		}
+	}
+	if v == ef.seed && len(fromStart) == 0 {
+		return true
+	}
+	if len(fromStart) == 0 {
+		return false
+	}
+	// no path from the start to `at` that avoids every definition of v (the seed may arrive undefined-since-start: then it still holds)
+	if v != ef.seed {
+		isDef := func(q cfgx.Point) bool { return q.Node() != nil && ef.g.Assigns(q.Node(), v) }
+		if _, avoids := ef.g.Reach(ef.start, true, cfgx.Query{Target: func(q cfgx.Point) bool { return q == at }, Cut: func(q cfgx.Point) bool { return q != at && isDef(q) }, CutEdge: ef.baseCut}); avoids {
+			return false
+		}
+	}
+	for _, d := range fromStart {
+		as, ok := d.Node().(*ast.AssignStmt)
+		if !ok || len(as.Lhs) != len(as.Rhs) {
+			return false
+		}
+		copied := false
+		for i := range as.Lhs {
+			if core.VarOf(ef.info, as.Lhs[i]) == v {
+				if u := core.VarOf(ef.info, as.Rhs[i]); u != nil && u != v && ef.holds(u, d, depth+1) {
+					copied = true
+				}
+			}
+		}
+		if !copied {
+			return false
+		}
+	}
+	return true
+}
+
+// cut prunes the branch edges that assert `v == nil` for a variable that holds the error there.
+func (ef *errFlow) cut(b *cfgBlock, k int) bool {
+	if len(b.Succs) != 2 || len(b.Nodes) == 0 {
+		return false
+	}
+	e, ok := b.Nodes[len(b.Nodes)-1].(ast.Expr)
+	if !ok {
+		return false
+	}
+	at := cfgx.Point{B: b, I: len(b.Nodes) - 1}
+	for _, a := range cfgx.Atoms(e, k == 0) {
+		bb, isBin := ast.Unparen(a.Cond).(*ast.BinaryExpr)
+		if !isBin || (bb.Op != token.EQL && bb.Op != token.NEQ) {
+			continue
+		}
+		id, isID := ast.Unparen(bb.Y).(*ast.Ident)
+		if !isID || id.Name != "nil" {
+			continue
+		}
+		v := core.VarOf(ef.info, bb.X)
+		if v == nil || !isErrorType(v.Type()) {
+			continue
+		}
+		if (bb.Op == token.EQL) == a.Val && ef.holds(v, at, 0) {
+			return true
+		}
+	}
+	return false
+}
+
+func nonNilCut(g *cfgx.G, info *types.Info, body ast.Node, seed *types.Var, start cfgx.Point) func(b *cfgBlock, k int) bool {
+	return newErrFlow(g, info, seed, start).cut
 }
 
 func samePointSet(a, b []cfgx.Point) bool {
